@@ -81,6 +81,13 @@ def step (st : St) (j : Json) : Except String (St × Json × List Fired) := do
   let out := (j.getObjVal? "out").toOption.getD Json.null
   let s := st.s
   let mut fired : List Fired := []
+  -- a member's registered public key (what its partial signatures are verified against) is the one key generation gave it,
+  -- for as long as the group exists
+  match (j.getObjVal? "obs").toOption.bind (fun o => (o.getObjVal? "keysChanged").toOption) with
+  | some (.arr a) =>
+    if !a.isEmpty then
+      fired := fired ++ [{ name := "member_public_key_lost_or_changed", detail := Json.arr a }]
+  | _ => pure ()
   let (s', e) ← match op with
     | "submitDE" => do pure (enqueue s (← jnat j "member") (← jnat j "k"))
     | "resetDE" => do pure (resetDE s (← jnat j "member"), Err.ok)
